@@ -333,6 +333,9 @@ def _compare(interp, sym, a, b):
         r = _identity(a, b)
         if r is True:
             return K(True)
+        if isinstance(a, T) and isinstance(b, T) and a.op == 'id' and \
+                b.op == 'id':
+            return K(a == b)        # ids of two live objects differ
         for x, y in ((a, b), (b, a)):
             if isinstance(x, Obj) and isinstance(x.fields.get('__eq__'),
                                                  AbsFunc):
@@ -1117,6 +1120,24 @@ def dict_method(interp, base, name, args, kwargs):
 
 
 # ---------------------------------------------------------------- builtins
+def b_id(interp, args, kwargs):
+    """id() of a heap object: one term per object, equal only to itself."""
+    v, = args
+    if isinstance(v, (Obj, ListV, DictV, SetV, FuncRef, ClassRef, AbsFunc)):
+        table = interp.__dict__.setdefault('_ids', {})
+        keep = interp.__dict__.setdefault('_id_keep', [])
+        n = table.get(id(v))
+        if n is None:
+            n = table[id(v)] = len(table) + 1
+            keep.append(v)          # keep alive: python ids are reused
+        t = T('id', n)
+        interp.types[t] = 'int'
+        interp.distinct.add(t)
+        return t
+    interp.fresh_n += 1
+    return T('ret', 'id', interp.fresh_n, interp.termify(v))
+
+
 def b_len(interp, args, kwargs):
     v, = args
     if isinstance(v, K):
@@ -1626,7 +1647,7 @@ BUILTINS = {
     'range': b_range, 'enumerate': b_enumerate, 'reversed': b_reversed,
     'zip': b_zip, 'dict': b_dict, 'list': b_list, 'tuple': b_tuple,
     'set': b_set, 'sorted': b_sorted, 'all': b_all, 'any': b_any,
-    'getattr': b_getattr, 'hasattr': b_hasattr, 'type': b_type,
+    'getattr': b_getattr, 'hasattr': b_hasattr, 'type': b_type, 'id': b_id,
     'iter': b_iter, 'print': b_print, 'next': b_next,
     'contextlib.suppress': b_suppress,
     'struct.unpack': b_struct_unpack, 'struct.calcsize': b_struct_calcsize,
